@@ -483,6 +483,7 @@ struct Loc
     std::function<void(const ModelPtr &)> api;    // patch of the API-built model; may be empty
     std::string rawXml;                           // replaces the marker <ci> in math strings / text when non-empty
     bool text = true;                             // also try the text + strict parse path
+    bool must = false;                            // crafted location: always among the chosen ones
 };
 
 using LocFn = std::function<std::vector<Loc>(const IrModel &, Rng &)>;
@@ -500,6 +501,13 @@ struct Fault
 };
 
 static std::vector<Fault> &catalogue();
+
+// objects that must outlive a validation although the model only holds weak references to them (cleared per case)
+static std::vector<std::shared_ptr<void>> &keepAlive()
+{
+    static std::vector<std::shared_ptr<void>> v;
+    return v;
+}
 
 // ---------------------------------------------------------------- catalogue: helpers
 namespace {
@@ -961,6 +969,7 @@ void addUniquenessFaults(std::vector<Fault> &cat)
                 f.conns[cni].maps[0].id = "c04_dupid";
                 f.comps[static_cast<size_t>(c1)].id = "c04_dupid";
             }));
+            out.back().must = true;
             break;
         }
         // an id on a MathML element equal to the id of another item
@@ -1025,6 +1034,7 @@ void addUniquenessFaults(std::vector<Fault> &cat)
                                             auto &rs = f.comps[static_cast<size_t>(tc)].resets;
                                             rs.insert(first ? rs.begin() : rs.end(), mkReset(tv, order));
                                         }));
+                    out.back().must = kv.second >= 2;
                 }
             }
         }
@@ -1292,6 +1302,7 @@ void addEquivalenceFaults(std::vector<Fault> &cat)
                     sides(b, "c04_ub", "b");
                     connect(a, "c04_ua", b, "c04_ub");
                 }));
+                out.back().must = true;
                 // existing variables with literally the same units
                 for (const auto &va : m.comps[static_cast<size_t>(a)].vars) {
                     bool done = false;
@@ -1319,6 +1330,36 @@ void addEquivalenceFaults(std::vector<Fault> &cat)
             }
         }
         return out; }, [](GenOptions &g) { g.encapsulation = true; g.maxComponents = 7; });
+
+    // an equivalent variable that belongs to no component (API only)
+    add(cat, "equiv:variable-without-component", {Rule::MAP_VARIABLES_VARIABLE1_ATTRIBUTE, Rule::MAP_VARIABLES_VARIABLE1_ATTRIBUTE_REFERENCE, Rule::MAP_VARIABLES_VARIABLE2_ATTRIBUTE, Rule::MAP_VARIABLES_VARIABLE2_ATTRIBUTE_REFERENCE}, [](const IrModel &m, Rng &) {
+        std::vector<Loc> out;
+        for (int ci : plainComps(m)) {
+            const auto &c = m.comps[static_cast<size_t>(ci)];
+            for (size_t vi = 0; vi < c.vars.size(); ++vi) {
+                bool conn = !requiredInterface(m, ci, c.vars[vi].name).empty();
+                std::string cname = c.name;
+                std::string vname = c.vars[vi].name;
+                std::string units = c.vars[vi].units;
+                Loc l;
+                l.cls = compClass(m, ci) + "/" + posClass(vi, c.vars.size()) + (conn ? "/connected" : "/free");
+                l.what = "variable '" + vname + "' of component '" + cname + "' made equivalent to a variable that has no parent component (API)";
+                l.text = false;
+                l.api = [=](const ModelPtr &model) {
+                    for (const auto &comp : allComponents(model)) {
+                        if (comp->name() == cname && !comp->isImport() && comp->variable(vname) != nullptr) {
+                            auto orphan = Variable::create("c04_orphan");
+                            orphan->setUnits(units);
+                            keepAlive().push_back(orphan);
+                            Variable::addEquivalence(comp->variable(vname), orphan);
+                        }
+                    }
+                };
+                out.push_back(l);
+            }
+        }
+        return out;
+    });
 
     add(cat, "equiv:units-incompatible", {Rule::MAP_VARIABLES_ELEMENT}, [](const IrModel &m, Rng &rng) {
         std::vector<Loc> out;
@@ -1622,7 +1663,7 @@ void addImportFaults(std::vector<Fault> &cat)
             std::string b = rng.pick(bad);
             out.push_back(irLoc(cls, "import #" + std::to_string(ii) + " href := '" + b + "'", [=](IrModel &f) { f.imports[ii].url = b; }));
         }); }, wantImports);
-    cat.back().probe = true; // which strings libxml2's xmlParseURI refuses is not a CellML rule: recorded, not judged
+    // every candidate violates RFC 3986 (space, <>, ^`{}|\\, malformed escape, unclosed IP literal)
 }
 
 // ---------------------------------------------------------------- catalogue: MathML faults
@@ -2410,6 +2451,11 @@ static std::vector<Loc> chooseLocs(std::vector<Loc> all, Rng &rng, size_t maxN)
     std::vector<Loc> out;
     std::set<std::string> classes;
     for (const auto &l : all) {
+        if (l.must && out.empty() && maxN > 1 && classes.insert(l.cls).second) {
+            out.push_back(l);
+        }
+    }
+    for (const auto &l : all) {
         if (out.size() < maxN && classes.insert(l.cls).second) {
             out.push_back(l);
         }
@@ -2536,6 +2582,20 @@ static void runSharedImportWitness(Ctx &ctx, int variant)
         addU("u2");
     }
     seen("scenario", "shared-import-witness:" + std::to_string(variant));
+    if (variant == 0) {
+        // validateModel(nullptr) must be reported, not crash
+        auto validator = Validator::create();
+        validator->validateModel(nullptr);
+        monitorLogger(*validator, "Validator::validateModel(null)", "validateModel(nullptr)");
+        stat("faults_injected");
+        stat("inj:null-model");
+        if (validator->errorCount() >= 1 && validator->error(0)->referenceRule() == Rule::INVALID_ARGUMENT) {
+            stat("faults_detected");
+            stat("det:null-model");
+        } else {
+            viol("C04", validator->errorCount() == 0 ? "missed-violation:null-model:api" : "wrong-rule:null-model:" + rn(validator->error(0)->referenceRule()), issueSummary(*validator), "validateModel(nullptr)");
+        }
+    }
     checkAccepted(ir, buildApi(ir), "api", "API: one ImportSource (url lib.cellml, id imp1) set on two imported entities:\n" + dumpIr(ir), [](const IrModel &t) { return buildApi(t); });
     WriteStyle st;
     st.pretty = true;
@@ -2889,6 +2949,7 @@ void vh_run_case(Ctx &ctx)
     }
     const Plan &p = plans[ctx.tier];
     int64_t i = ctx.index;
+    keepAlive().clear();
     // special scenarios first (cheap, and --limit runs reach them), then acceptance, then faults
     if (i < p.nWitness) {
         runSharedImportWitness(ctx, static_cast<int>(i));
